@@ -1,7 +1,7 @@
 SPECIFICATION Spec
 CONSTANTS
   MaxEdits = 1
-  ShapeNames = {"p1", "p2u", "c1s", "c1p", "c1po", "c2", "c2i", "c3"}
+  ShapeNames = {"p1", "p2u", "c1s", "c1p", "c1po", "c2", "c2i", "c3", "c3r"}
   Emit = TRUE
 INVARIANTS TypeOK CodeMeetsSpec CommitListExact Completeness
 CHECK_DEADLOCK FALSE
